@@ -1193,6 +1193,12 @@ class Interp:
                     ax += 1
                 elif isinstance(v, Arr) and v.ndim >= 1 and _is_boolean(v.poly):
                     for k, d in enumerate(v.dims):
+                        if ax + k < len(cur_dims) and cur_dims[ax + k] != d and self._positional(d) and self._positional(cur_dims[ax + k]) \
+                                and self.axis_len[d] == self.axis_len[cur_dims[ax + k]] and cur_dims[ax + k] not in v.dims:
+                            v = self._relabel_axis(v, d, cur_dims[ax + k])          # two position-counting axes of the same length line up
+                        elif ax + k < len(cur_dims) and cur_dims[ax + k] is None and self._positional(d) and self.axis_len[d] == 1:
+                            v = v.with_(dims=tuple(None if d_ == d else d_ for d_ in v.dims), poly=alg.index_at(v.poly, d, num(0)))          # one position each
+                    for k, d in enumerate(v.dims):
                         if ax + k >= len(cur_dims) or cur_dims[ax + k] != d:
                             self.findings.append(Finding('label-clash', 'mask over %r used on axes %r in store %s' % (v.dims, tuple(cur_dims[ax:ax + v.ndim]), up(sub)), sub, mod.path))
                             setv(Unk('label clash', t, definite=True))
@@ -1638,6 +1644,7 @@ class Interp:
         if isinstance(b, Unk):
             return b
         a, b = _align_primed(a, b)
+        a, b = self._align_positional(a, b)
         if isinstance(op, (ast.BitAnd, ast.BitOr)):
             d = bdims(a.dims, b.dims)
             p = alg.b_and(a.poly, b.poly) if isinstance(op, ast.BitAnd) else alg.b_or(a.poly, b.poly)
@@ -1724,6 +1731,23 @@ class Interp:
         newlab = '%s[%s:%s]' % (lab, '' if st_ == 0 else st_, en_)
         self.axis_len[newlab] = en_ - st_
         return Arr((newlab,) + rest, alg.array_fn('slice', lab, whole.poly, C(None) if st_ == 0 else P(num(st_)), P(num(en_)), C(None), out=newlab), unit=ref.unit, dt=ref.dt)
+
+    def _positional(self, lab):
+        """an axis that only counts positions (a list made into an array, a fixed slice of one, concrete repeats), of known length: two such axes of the same
+        length line up position by position, as numpy lines them up"""
+        return isinstance(lab, str) and lab in self.axis_len and (lab.startswith('pos#') or lab.startswith('rep#'))
+
+    def _relabel_axis(self, x, old, new):
+        return x.with_(dims=tuple(new if d_ == old else d_ for d_ in x.dims), poly=alg.rename_labels(x.poly, {old: new}), mask=None if x.mask is None else alg.rename_labels(x.mask, {old: new}))
+
+    def _align_positional(self, a, b):
+        if not (isinstance(a, Arr) and isinstance(b, Arr)) or not a.dims or not b.dims:
+            return a, b
+        for k_ in range(1, min(len(a.dims), len(b.dims)) + 1):
+            x, y = a.dims[-k_], b.dims[-k_]
+            if x and y and x != y and self._positional(x) and self._positional(y) and self.axis_len[x] == self.axis_len[y] and x not in b.dims and y not in a.dims:
+                b = self._relabel_axis(b, y, x)
+        return a, b
 
     def _reshape_concrete(self, x, shape, node):
         """x.reshape(shape) for a 1-D array of known length and concrete extents: out[i, j, ...] is x[((i * n1) + j) * n2 + ...] (row-major); the
@@ -1908,6 +1932,7 @@ class Interp:
             return b
         self._unit_kind_check(a, b, e, mod, 'comparison')
         a, b = _align_primed(a, b)
+        a, b = self._align_positional(a, b)
         d = bdims(a.dims, b.dims)
         mk = _merge_mask(a, b)
         if isinstance(mk, Unk):
@@ -2261,6 +2286,12 @@ class Interp:
                 ax += 1
                 continue
             if isinstance(w, Arr) and w.ndim >= 1 and _is_boolean(w.poly):
+                for j, d in enumerate(w.dims):
+                    if ax + j < v.ndim and v.dims[ax + j] != d and self._positional(d) and self._positional(v.dims[ax + j]) \
+                            and self.axis_len[d] == self.axis_len[v.dims[ax + j]] and v.dims[ax + j] not in w.dims:
+                        w = self._relabel_axis(w, d, v.dims[ax + j])
+                    elif ax + j < v.ndim and v.dims[ax + j] is None and self._positional(d) and self.axis_len[d] == 1:
+                        w = w.with_(dims=tuple(None if d_ == d else d_ for d_ in w.dims), poly=alg.index_at(w.poly, d, num(0)))
                 for j, d in enumerate(w.dims):
                     if ax + j >= v.ndim or v.dims[ax + j] != d:
                         raise LabelClash('mask over %r used on axes %r in %s' % (w.dims, v.dims[ax:ax + w.ndim], up(e)))
